@@ -40,9 +40,12 @@ ASSUMPTIONS = [
 
 
 def _ties():
-    from harness.translate import boot_tr
+    from harness.translate import boot_tr, bootci_tr
     return [{"name": "scores.bootstrap_metric/bootstrap_ci/bootstrap_sample-tail", "translate": boot_tr.translate_boot,
-             "gen_file": "Gen_boot.v", "tie_file": "Tie_boot.v"}]
+             "gen_file": "Gen_boot.v", "tie_file": "Tie_boot.v"},
+            # the documented CI formula itself (property C13 carries its theorems)
+            {"name": "utils.bootstrap_ci formulas", "translate": bootci_tr.translate_bootstrap_ci,
+             "gen_file": "Gen_bootci.v", "tie_file": "Tie_bootci.v"}]
 
 
 TIES = _ties()
